@@ -549,3 +549,67 @@ _run_c13_5 = run
 def run(res, facts, tier):
     _run_c13_5(res, facts, tier)
     r6_pattern_verdicts(res, facts)
+
+
+# ----------------------------------------------------------------------------------------------- R7: "white space only" is a function of the characters
+def r7_whitespace_flag(res, facts):
+    """The strip decision starts from XalanText::isWhitespace().  In the default source tree that answer is the CLASS of the text node, chosen when the node is built:
+    XalanSourceTreeTextIWS answers true, XalanSourceTreeText false.  So a plain text node may be created only for text that is not all white space - decided from the
+    characters handed in and from nothing else (not from how the text was written: CDATA sections, entity references, several character events)."""
+    r = res.rule('C13-R7', 'whether a text node of the source tree counts as white space is a function of its characters: XalanSourceTreeTextIWS::isWhitespace is constantly true, '
+                 'XalanSourceTreeText::isWhitespace constantly false, and XalanSourceTreeDocument creates the plain class only on paths dominated by isXMLWhitespace(chars, 0, length) '
+                 '== false over the text it was given', floor=3)
+    for q, want in (('XalanSourceTreeTextIWS::isWhitespace', 1), ('XalanSourceTreeText::isWhitespace', 0)):
+        for a in facts.asts(q):
+            rets = [x for x in walk(a['body']) if x.get('k') == 'Return']
+            vals = {(strip_casts(x['e']) or {}).get('cv') for x in rets if x.get('e') is not None}
+            if len(rets) >= 1 and vals == {want}:
+                r.ok(q, 'constantly %s' % ('true' if want else 'false'))
+            else:
+                r.violation(q, 'does not answer %s unconditionally (%s): the class of a text node no longer says whether it is white space' % ('true' if want else 'false', sorted(map(str, vals))),
+                            common.file_line(a))
+    n = 0
+    for k in facts.astidx:
+        f = facts.F.get(k)
+        if not f or short(f.get('cls') or '') != 'XalanSourceTreeDocument':
+            continue
+        a = facts.ast(k)
+        if a is None or a.get('body') is None:
+            continue
+        cfg = None
+        for c in calls(a['body']):
+            if (c.get('n') or '') != 'create':
+                continue
+            o = strip_casts(c.get('obj'))
+            if o is None or o.get('k') != 'Member' or o.get('m') != 'm_textAllocator':
+                continue
+            n += 1
+            if cfg is None:
+                cfg = CFG(a)
+                must = common.must_conds(cfg)
+            node = next((nd for nd in cfg.nodes if nd.ast is not None and any(y is c for y in walk(nd.ast))), None)
+            site = '%s: plain text node' % short(facts.name[k])
+            pids = [p.get('id') for p in a['params'][:2]]
+            ok = False
+            for at, br in (must.get(node.id, []) if node is not None else []):
+                core, eff = common.norm_atom(at, br)
+                if core is not None and core.get('k') == 'Call' and (core.get('n') or callee(core).split('::')[-1]) == 'isXMLWhitespace' and not eff:
+                    args = [strip_casts(x) for x in core.get('args', [])]
+                    if len(args) == 3 and args[0] is not None and args[0].get('id') == pids[0] and args[1].get('cv') == 0 and args[2].get('id') == pids[1]:
+                        ok = True
+            if ok:
+                r.ok(site, 'only where isXMLWhitespace(chars, 0, length) is false')
+            else:
+                r.violation(site, 'a plain text node (isWhitespace() == false) can be created for text that is all white space: the path to m_textAllocator.create is not dominated by '
+                            'isXMLWhitespace(chars, 0, length) == false over the characters given, so xsl:strip-space never strips that node', common.file_line(a, c))
+    if n == 0:
+        raise AnalysisBroken('XalanSourceTreeDocument creates no plain text node through m_textAllocator any more')
+    return r
+
+
+_run_c13_6 = run
+
+
+def run(res, facts, tier):
+    _run_c13_6(res, facts, tier)
+    r7_whitespace_flag(res, facts)
